@@ -4,11 +4,19 @@ From SG Require Import Base.QcUtil Model.FunCache.
 Import ListNotations.
 
 (* ------------------------------------------------------------------ keys, membership *)
+Lemma Qc_eqb_canon_eq a b : Qc_eqb_canon a b = true <-> a = b.
+Proof.
+  unfold Qc_eqb_canon. split; intro H.
+  - apply andb_true_iff in H. destruct H as [H1 H2]. apply Z.eqb_eq in H1. apply Pos.eqb_eq in H2.
+    apply Qc_is_canon. destruct a as [[n1 d1] c1], b as [[n2 d2] c2]. cbn [this Qnum Qden] in *. subst. reflexivity.
+  - subst. rewrite Z.eqb_refl, Pos.eqb_refl. reflexivity.
+Qed.
+
 Lemma point_eqb_eq a b : point_eqb a b = true <-> a = b.
 Proof.
   revert b. induction a as [|x a IH]; intros [|y b]; simpl; split; intro H; try reflexivity; try discriminate.
-  - apply andb_true_iff in H. destruct H as [H1 H2]. apply Qc_eqb_eq in H1. apply IH in H2. subst. reflexivity.
-  - injection H as -> ->. apply andb_true_iff. split; [apply Qc_eqb_eq; reflexivity | apply IH; reflexivity].
+  - apply andb_true_iff in H. destruct H as [H1 H2]. apply Qc_eqb_canon_eq in H1. apply IH in H2. subst. reflexivity.
+  - injection H as -> ->. apply andb_true_iff. split; [apply Qc_eqb_canon_eq; reflexivity | apply IH; reflexivity].
 Qed.
 
 Lemma point_eqb_refl a : point_eqb a a = true.
